@@ -81,6 +81,11 @@ def leadDoctype : List Token → Option (List Token × List Token)
   | .data ws :: .decl d :: r => if wsNL ws then some ([.data ws, .decl d], r) else none
   | _ => none
 
+/-- exceptions a parse can end with -/
+inductive Exc where
+  | multipleRoot | invalidClose | missedClose | invalidAttr
+  deriving Repr, Inhabited, DecidableEq
+
 /-- The parsed document as the public API shows it. -/
 structure Doc where
   doctype : Option Str
